@@ -1,4 +1,6 @@
 import PwVerif.Proofs.FuncWrap
+import PwVerif.Proofs.PyAst
+import PwVerif.Proofs.Kinds
 /-!
 # C17 — Node classes faithfully wrap their definitions
 
@@ -40,17 +42,26 @@ transformer size, every field layout):
   `item_i` for every `n` (labels live in channel creation order, nothing is sorted); sorting the labels as
   strings is the same order up to `n = 10` and a different one at `n = 11`, by computation.
 
-What python's `inspect` and `ast` do with the *text* of a definition is an input of the model, not part of
-it: the model is handed the parameters (name, evaluated annotation, default), the `return` statements as
-`ast` shows them (a tuple of element texts or one expression text) and the evaluated return annotation with
-its `typing.get_args`.  That these are read off the source correctly (whitespace, multi-line returns,
-`from __future__ import annotations`, `None`, unions) is checked on real generated source files by the
-harness (correspondence + oracle), not proved.
+* `C17_scrape_own_return`, `C17_scrape_text`, `C17_labels_from_source`, `C17_scrape_nested_witness`,
+  `C17_scrape_bytecols_witness` — `ParseOutput` itself (`Model/PyAst.lean`): the walk over the statement tree of
+  the function body (branches, loops, `try`/`with`, nested `def`s and classes at any depth) and the cutting of
+  the texts out of the source lines by `lineno/col_offset`; the labels are the texts of the values of the
+  function's OWN return, in order; the pinned walk also enters nested functions and the pinned cutter uses byte
+  offsets as character indices — both refuted by witnesses.
+* `C17_inputs_kinds`, `C17_bind_kinds`, `C17_run_kinds_partial/_repaired/_witness`, `C17_variadic_witness` —
+  parameters of every kind (`Model/Kinds.lean`): one input per parameter whatever its kind; whatever Python's
+  kind-aware binder binds, the node hands its body; positional-only parameters handed over by keyword make the
+  pinned node unrunnable; variadics are refused by name only.
+
+What python's `ast` module makes of the source TEXT (the tree and the positions of its nodes) and what
+`inspect.signature(eval_str=True)` makes of the annotations are inputs of the model: the harness converts the
+real `ast` tree of the real generated file into the model's term (statement skeleton + spans of the returned
+values + the source lines as code points); everything `ParseOutput` does with them is modelled and proved.
 
 Only property theorems live here; lemmas are in `Proofs/FuncWrap.lean`.
 -/
 namespace PwVerif.C17
-open PwVerif PwVerif.FuncWrap
+open PwVerif PwVerif.FuncWrap PwVerif.PyAst PwVerif.Kinds
 
 /-- **binding**: for every signature, both splits and all values, with `n0` the freshly set-up node:
 (1) if Python binds `vs`, construction succeeds and the call's gate hands the body exactly `vs`;
@@ -1028,6 +1039,274 @@ example : (match construct (inputsToListNode 12) ((List.range 5).map fun i => Va
 example : ((unpackCall (listToOutputsNode 12) [Val.list ((List.range 12).map fun i => Val.atom ("v" ++ toString i))] []).1.outs)
     = (List.range 12).map fun i => ("item_" ++ toString i, Val.atom ("v" ++ toString i)) := by rfl
 
+/-! ### what `ParseOutput` reads off the source: the function's own return, element by element -/
+
+/-- the texts of the values of a `return` statement, as `get_string` cuts them out of the source -/
+def retTexts (byteCols : Bool) (src : List (List Char)) : RetVal → List String
+  | .tuple sps => sps.map (getString byteCols src)
+  | .other sp => [getString byteCols src sp]
+
+/-- **labelled as written in THE function's return statement**: whenever the walk stays in the function's own
+scope (the repaired walk; or the pinned `ast.walk` on a body whose nested `def`s / classes contain no `return`),
+the scraped labels are determined by the function's OWN `return` statements alone — whatever nested functions,
+classes, lambdas, branches, loops, `try` / `with` blocks surround them, at any depth:
+no own return or a bare one ⇒ no labels (`None`); exactly one ⇒ the source texts of its values, in order
+(`return None` ⇒ `None`); two or more ⇒ refused. -/
+theorem C17_scrape_own_return (cfg : ScrapeCfg) (src : List (List Char)) (body : List PStmt)
+    (h : cfg.walkNested = false ∨ nestedRetL body = false) :
+    (retsOfL false body = [] ∨ retsOfL false body = [none] → scrape cfg src body = .ok none) ∧
+    (∀ sps, retsOfL false body = [some (.tuple sps)] →
+      scrape cfg src body = .ok (some (sps.map (getString cfg.byteCols src)))) ∧
+    (∀ sp, retsOfL false body = [some (.other sp)] →
+      scrape cfg src body
+        = .ok (if getString cfg.byteCols src sp = "None" then none else some [getString cfg.byteCols src sp])) ∧
+    (∀ r1 r2 rest, retsOfL false body = r1 :: r2 :: rest → scrape cfg src body = .error .multipleReturns) := by
+  have hw : retsOfL cfg.walkNested body = retsOfL false body := by
+    rcases h with h | h
+    · rw [h]
+    · cases hc : cfg.walkNested with
+      | false => rfl
+      | true => exact retsOfL_agree body h
+  unfold scrape retStmts
+  rw [hw]
+  refine ⟨?_, ?_, ?_, ?_⟩
+  · intro h0
+    rcases h0 with h0 | h0 <;> rw [h0] <;> simp [toRetStmt, parseOutput]
+  · intro sps h0; rw [h0]; simp [toRetStmt, parseOutput]
+  · intro sp h0; rw [h0]; simp [toRetStmt, parseOutput]
+  · intro r1 r2 rest h0; rw [h0]; simp [parseOutput]
+
+/-- **the text of a value is what is written**: for a value written on one line, occupying the characters
+`a … b` of it, the label is exactly that piece of the line (runs of white space collapsed to their last
+character, nothing else changed) — with character columns on every line, with the pinned byte columns on
+lines made of ASCII characters only. -/
+theorem C17_scrape_text (byteCols : Bool) (src : List (List Char)) (k a b : Nat) (line : List Char)
+    (hl : src[k]? = some line) (hab : a ≤ b) (hb : b ≤ line.length)
+    (hcols : byteCols = false ∨ ascii line = true) :
+    getString byteCols src ⟨k + 1, bytes (line.take a), k + 1, bytes (line.take b)⟩
+      = String.ofList (removeSpaces (slice line a b)) ∧
+    (noWsPair (slice line a b) = true →
+      getString byteCols src ⟨k + 1, bytes (line.take a), k + 1, bytes (line.take b)⟩
+        = String.ofList (slice line a b)) := by
+  have h := getString_single byteCols src k a b line hl hab hb hcols
+  refine ⟨h, fun hn => ?_⟩
+  rw [h, removeSpaces_id _ hn]
+
+/-- the source of `def f(x):` / `    def pair(y):` / `        return y, y + 1` / `    print(pair(x))` -/
+def nestedSrc : List (List Char) :=
+  ["def f(x):", "    def pair(y):", "        return y, y + 1", "    print(pair(x))"].map String.toList
+/-- its body: a nested `def` (a scope) holding the only `return` of the file, then an expression statement -/
+def nestedBody : List PStmt :=
+  [.inner true [.ret (some (.tuple [⟨3, 15, 3, 16⟩, ⟨3, 18, 3, 23⟩]))], .leaf]
+
+/-- the pinned walk (`ast.walk`) enters nested functions: `f` has no `return` of its own, yet gets the two
+labels written in the return statement of its helper `pair` (and the node then cannot store `None` on two
+outputs); the walk that stays in the function's scope gives no labels, i.e. the single output `None`. -/
+theorem C17_scrape_nested_witness :
+    retsOfL false nestedBody = [] ∧
+    scrape ScrapeCfg.pinned nestedSrc nestedBody = .ok (some ["y", "y + 1"]) ∧
+    scrape { ScrapeCfg.pinned with walkNested := false } nestedSrc nestedBody = .ok none := by
+  refine ⟨by rfl, by rfl, by rfl⟩
+
+/-- `    return σ, ε` -/
+def greekSrc : List (List Char) := ["def f(σ, ε):", "    return σ, ε"].map String.toList
+/-- the spans `ast` reports for the two names: byte offsets 11–13 and 15–17 (each letter is two bytes) -/
+def greekBody : List PStmt := [.ret (some (.tuple [⟨2, 11, 2, 13⟩, ⟨2, 15, 2, 17⟩]))]
+
+/-- the pinned text cutter uses the byte offsets as character indices: after a non-ASCII character on the
+line the labels are shifted (`"σ,"` and `""` for `return σ, ε`); with character columns they are `σ`, `ε`. -/
+theorem C17_scrape_bytecols_witness :
+    scrape ScrapeCfg.pinned greekSrc greekBody = .ok (some ["σ,", ""]) ∧
+    scrape { ScrapeCfg.pinned with byteCols := false } greekSrc greekBody = .ok (some ["σ", "ε"]) := by
+  refine ⟨by rfl, by rfl⟩
+
+/-- the definition layer on top of the source: a function definition whose `return` statements are the ones
+read off its source -/
+def FnDef.ofSource (cfg : ScrapeCfg) (src : List (List Char)) (body : List PStmt) (params : List FParam)
+    (declared : Option (List String)) (validate : Bool) (retAnn : RetAnn) : FnDef :=
+  { params := params, rets := retStmts cfg src body, declared := declared, validate := validate, retAnn := retAnn }
+
+/-- **from the source file to the output labels**: for a definition without declared labels whose own scope
+holds exactly one `return`, of an `ast.Tuple` with spans `sps` — anywhere in the body, under any nesting — the
+outputs are labelled with the source texts of the tuple's elements, in order (provided these are distinct and
+the return annotation fits). -/
+theorem C17_labels_from_source (cfg : ScrapeCfg) (src : List (List Char)) (body : List PStmt)
+    (h : cfg.walkNested = false ∨ nestedRetL body = false)
+    (params : List FParam) (validate : Bool) (retAnn : RetAnn) (sps : List Span)
+    (hown : retsOfL false body = [some (.tuple sps)]) (hne : sps ≠ [])
+    (hnd : (sps.map (getString cfg.byteCols src)).Nodup)
+    (hh : HintsFit retAnn sps.length) :
+    ∃ pout, previewOutputs (FnDef.ofSource cfg src body params none validate retAnn) = .ok pout ∧
+      pout.map (·.1) = sps.map (getString cfg.byteCols src) := by
+  have hw : retsOfL cfg.walkNested body = retsOfL false body := by
+    rcases h with h | h
+    · rw [h]
+    · cases hc : cfg.walkNested with
+      | false => rfl
+      | true => exact retsOfL_agree body h
+  have hr : (FnDef.ofSource cfg src body params none validate retAnn).rets
+      = [.value (.tuple (sps.map (getString cfg.byteCols src)))] := by
+    simp [FnDef.ofSource, retStmts, hw, hown, toRetStmt]
+  have := C17_labels_scraped (FnDef.ofSource cfg src body params none validate retAnn)
+    (.tuple (sps.map (getString cfg.byteCols src))) rfl hr (by simp) (by simpa [written] using hne)
+    (by simpa [written] using hnd) (by simpa [written, FnDef.ofSource] using hh)
+  simpa [written] using this
+
+/-! ### parameters of every kind -/
+
+/-- **one input per parameter of whatever kind**: the preview lists every parameter, in order, with its
+default; with the repair exactly the definitions with a reserved name or a variadic parameter are refused;
+the pinned code refuses by name only. -/
+theorem C17_inputs_kinds (cfg : KindCfg) (ps : List KParam) :
+    (∀ pin, previewKinds cfg ps = .ok pin →
+      pin = ps.map (fun p => (p.name, p.dflt.getD .nd)) ∧
+      (∀ p ∈ ps, initKeywords.contains p.name = false) ∧
+      (cfg.variadicByName = false → ∀ p ∈ ps, p.kind.variadic = false)) ∧
+    ((∀ p ∈ ps, initKeywords.contains p.name = false) →
+      (cfg.variadicByName = true ∨ ∀ p ∈ ps, p.kind.variadic = false) →
+      previewKinds cfg ps = .ok (ps.map fun p => (p.name, p.dflt.getD .nd))) := by
+  induction ps with
+  | nil => simp [previewKinds]
+  | cons p ps ih =>
+    refine ⟨?_, ?_⟩
+    · intro pin h
+      simp only [previewKinds] at h
+      split at h
+      · cases h
+      · rename_i hres
+        split at h
+        · cases h
+        · rename_i hvar
+          cases hr : previewKinds cfg ps with
+          | error e => simp [hr, Except.map] at h
+          | ok r =>
+            simp only [hr, Except.map, Except.ok.injEq] at h
+            obtain ⟨e1, e2, e3⟩ := ih.1 r hr
+            refine ⟨by rw [← h, e1]; rfl, ?_, ?_⟩
+            · intro q hq
+              simp only [List.mem_cons] at hq
+              rcases hq with rfl | hq
+              · simpa using hres
+              · exact e2 q hq
+            · intro hc q hq
+              simp only [List.mem_cons] at hq
+              rcases hq with rfl | hq
+              · simpa [hc] using hvar
+              · exact e3 hc q hq
+    · intro hres hvar
+      have h1 : initKeywords.contains p.name = false := hres p (by simp)
+      have h2 : (!cfg.variadicByName && p.kind.variadic) = false := by
+        rcases hvar with h | h
+        · simp [h]
+        · simp [h p (by simp)]
+      simp only [previewKinds, h1, h2, List.map_cons]
+      rw [ih.2 (fun q hq => hres q (List.mem_cons_of_mem _ hq))
+        (hvar.imp id fun h q hq => h q (List.mem_cons_of_mem _ hq))]
+      simp [Except.map]
+
+/-- **binding over all parameter kinds**: for every signature of positional-only, positional-or-keyword and
+keyword-only parameters, whenever Python's own (kind-aware) binder binds `vs` for the two splits, the node —
+whose binder knows no kinds — is built and hands its body exactly `vs`.  (The converse fails on purpose: the
+node also takes a keyword-only input positionally and a positional-only one by keyword, see the examples.) -/
+theorem C17_bind_kinds (ps : List KParam) (outs : List String)
+    (a1 : List Val) (k1 : List (String × Val)) (a2 : List Val) (k2 : List (String × Val))
+    (hnd : (ps.map (·.name)).Nodup) (hk1 : (k1.map (·.1)).Nodup) (hk2 : (k2.map (·.1)).Nodup)
+    (hs : DataSig (sigOf ps)) (hd1 : DataVals a1 k1) (hd2 : DataVals a2 k2)
+    (vs : List Val) (hp : pyArgsK ps a1 k1 a2 k2 = .ok vs) :
+    ∃ n1 g, construct (mkNode (sigOf ps) outs) a1 k1 = .ok n1 ∧ gate n1 a2 k2 = (g, .ok vs) ∧
+      values g.ins = vs ∧ labels g.ins = ps.map (·.name) ∧ g.outs = outs.map fun l => (l, Val.nd) := by
+  have hp' := pyArgsK_plain ps a1 k1 a2 k2 hnd vs hp
+  obtain ⟨n1, g, hc, hg, hv, hl, ho⟩ := bind_ok (mkNode (sigOf ps) outs) (sigOf ps) rfl a1 k1 a2 k2
+    (by rw [sigOf_names]; exact hnd) hk1 hk2 hs hd1 hd2 vs hp'
+  exact ⟨n1, g, hc, hg, hv, by rw [hl, sigOf_names], ho⟩
+
+/-- what the property demands of a function node whose parameters are of any non-variadic kind: whenever
+Python's call binds `vs`, the node run processes exactly the object `F vs` the function returns -/
+def KindsStatement (cfg : KindCfg) : Prop :=
+  ∀ (ps : List KParam) (outs : List String) (F : List Val → Val)
+    (a1 : List Val) (k1 : List (String × Val)) (a2 : List Val) (k2 : List (String × Val)),
+    (∀ p ∈ ps, p.kind.variadic = false) →
+    (ps.map (·.name)).Nodup → (k1.map (·.1)).Nodup → (k2.map (·.1)).Nodup →
+    DataSig (sigOf ps) → DataVals a1 k1 → DataVals a2 k2 →
+    ∀ vs, pyArgsK ps a1 k1 a2 k2 = .ok vs →
+      ∃ n1 n2, construct (mkNode (sigOf ps) outs) a1 k1 = .ok n1 ∧
+        callK cfg F ps n1 a2 k2 = finish n2 (F vs) ∧ n2.outs = outs.map fun l => (l, Val.nd)
+
+/-- it holds whenever positional-only values are not handed over by keyword, or there is no such parameter -/
+theorem C17_run_kinds_partial (cfg : KindCfg) (ps : List KParam)
+    (hyp : cfg.posOnlyByKeyword = false ∨ ∀ p ∈ ps, p.kind ≠ .posOnly)
+    (outs : List String) (F : List Val → Val)
+    (a1 : List Val) (k1 : List (String × Val)) (a2 : List Val) (k2 : List (String × Val))
+    (hv : ∀ p ∈ ps, p.kind.variadic = false)
+    (hnd : (ps.map (·.name)).Nodup) (hk1 : (k1.map (·.1)).Nodup) (hk2 : (k2.map (·.1)).Nodup)
+    (hs : DataSig (sigOf ps)) (hd1 : DataVals a1 k1) (hd2 : DataVals a2 k2)
+    (vs : List Val) (hp : pyArgsK ps a1 k1 a2 k2 = .ok vs) :
+    ∃ n1 n2, construct (mkNode (sigOf ps) outs) a1 k1 = .ok n1 ∧
+      callK cfg F ps n1 a2 k2 = finish n2 (F vs) ∧ n2.outs = outs.map fun l => (l, Val.nd) := by
+  obtain ⟨n1, g, hc, hg, _, _, ho⟩ := C17_bind_kinds ps outs a1 k1 a2 k2 hnd hk1 hk2 hs hd1 hd2 vs hp
+  refine ⟨n1, g, hc, ?_, ho⟩
+  have h1 : (cfg.posOnlyByKeyword && ps.any (fun p => p.kind == .posOnly)) = false := by
+    rcases hyp with h | h
+    · simp [h]
+    · have : ps.any (fun p => p.kind == .posOnly) = false := by
+        simp only [List.any_eq_false, beq_iff_eq]
+        exact fun p hp => h p hp
+      simp [this]
+  have h2 : ps.any (fun p => p.kind == .varPos) = false := by
+    simp only [List.any_eq_false, beq_iff_eq]
+    intro p hp e
+    have := hv p hp
+    rw [e] at this
+    cases this
+  unfold callK
+  rw [hg]
+  simp [h1, h2]
+
+theorem C17_run_kinds_repaired : KindsStatement KindCfg.repaired := by
+  intro ps outs F a1 k1 a2 k2 hv hnd hk1 hk2 hs hd1 hd2 vs hp
+  exact C17_run_kinds_partial KindCfg.repaired ps (Or.inl rfl) outs F a1 k1 a2 k2 hv hnd hk1 hk2 hs hd1 hd2 vs hp
+
+/-- `def f(a, /): return r` — Python's `f(1)` binds `[1]`; the pinned node takes the 1 and then calls
+`f(a=1)`, which Python refuses: the node of a function with a positional-only parameter can never run -/
+theorem C17_run_kinds_witness : ¬ KindsStatement KindCfg.pinned := by
+  intro h
+  obtain ⟨n1, n2, hc, hcall, _⟩ := h [⟨"a", .posOnly, none⟩] ["r"] (fun vs => .node "app0" [] vs)
+    [] [] [.atom "i1"] [] (by decide) (by decide) (by simp) (by simp)
+    (by intro p hp v hv; simp [sigOf] at hp; subst hp; simp at hv)
+    ⟨by simp, by simp⟩ ⟨by simp [Val.isData], by simp⟩ [.atom "i1"] rfl
+  have e : n1 = mkNode (sigOf [⟨"a", .posOnly, none⟩]) ["r"] := by
+    have : construct (mkNode (sigOf [⟨"a", .posOnly, none⟩]) ["r"]) [] []
+        = .ok (mkNode (sigOf [⟨"a", .posOnly, none⟩]) ["r"]) := rfl
+    rw [this] at hc; cases hc; rfl
+  subst e
+  have hl : (callK KindCfg.pinned (fun vs => .node "app0" [] vs) [⟨"a", .posOnly, none⟩]
+      (mkNode (sigOf [⟨"a", .posOnly, none⟩]) ["r"]) [.atom "i1"] []).2 = .typeError := rfl
+  rw [hcall] at hl
+  unfold finish at hl
+  split at hl <;> cases hl
+
+/-- variadics: the pinned preview refuses `*args` / `**kwargs` by their NAMES only — `def g(a, *rest)` gets an
+input `rest` that no value can satisfy (`g(rest=…)` is an unexpected keyword); the repaired one refuses every
+variadic parameter -/
+theorem C17_variadic_witness :
+    previewKinds KindCfg.pinned [⟨"a", .posOrKw, none⟩, ⟨"args", .varPos, none⟩] = .error .reservedName ∧
+    previewKinds KindCfg.pinned [⟨"a", .posOrKw, none⟩, ⟨"rest", .varPos, none⟩] = .ok [("a", .nd), ("rest", .nd)] ∧
+    (callK KindCfg.pinned (fun vs => .node "app0" [] vs) [⟨"a", .posOrKw, none⟩, ⟨"rest", .varPos, none⟩]
+      (mkNode (sigOf [⟨"a", .posOrKw, none⟩, ⟨"rest", .varPos, none⟩]) ["r"])
+      [.atom "i1", Val.tuple [.atom "i2"]] []).2 = .typeError ∧
+    previewKinds KindCfg.repaired [⟨"a", .posOrKw, none⟩, ⟨"rest", .varPos, none⟩] = .error .variadic :=
+  ⟨rfl, rfl, rfl, rfl⟩
+
+/-- non-vacuity: `def f(a, /, b, *, c=3)`: Python binds `f(1, 2)`, `f(1, b=2, c=5)`; refuses `f(a=1, b=2)` and
+`f(1, 2, 5)`; the kind-blind node binder takes all four -/
+def exKinds : List KParam := [⟨"a", .posOnly, none⟩, ⟨"b", .posOrKw, none⟩, ⟨"c", .kwOnly, some (.atom "i3")⟩]
+example : pyArgsK exKinds [] [] [.atom "i1", .atom "i2"] [] = .ok [.atom "i1", .atom "i2", .atom "i3"] := rfl
+example : pyArgsK exKinds [.atom "i1"] [] [] [("c", .atom "i5"), ("b", .atom "i2")] = .ok [.atom "i1", .atom "i2", .atom "i5"] := rfl
+example : pyArgsK exKinds [] [] [] [("a", .atom "i1"), ("b", .atom "i2")] = .error .unexpectedKeyword := rfl
+example : pyArgsK exKinds [] [] [.atom "i1", .atom "i2", .atom "i5"] [] = .error .tooManyPositional := rfl
+example : pyArgs (sigOf exKinds) [] [] [] [("a", .atom "i1"), ("b", .atom "i2")] = .ok [.atom "i1", .atom "i2", .atom "i3"] := rfl
+example : pyArgs (sigOf exKinds) [] [] [.atom "i1", .atom "i2", .atom "i5"] [] = .ok [.atom "i1", .atom "i2", .atom "i5"] := rfl
+
 end PwVerif.C17
 
 #print axioms PwVerif.C17.C17_bind
@@ -1063,3 +1342,14 @@ end PwVerif.C17
 #print axioms PwVerif.C17.C17_xf_list_sorted_witness
 #print axioms PwVerif.C17.C17_class_per_definition_repaired
 #print axioms PwVerif.C17.C17_class_per_definition_witness
+#print axioms PwVerif.C17.C17_scrape_own_return
+#print axioms PwVerif.C17.C17_scrape_text
+#print axioms PwVerif.C17.C17_scrape_nested_witness
+#print axioms PwVerif.C17.C17_scrape_bytecols_witness
+#print axioms PwVerif.C17.C17_labels_from_source
+#print axioms PwVerif.C17.C17_inputs_kinds
+#print axioms PwVerif.C17.C17_bind_kinds
+#print axioms PwVerif.C17.C17_run_kinds_partial
+#print axioms PwVerif.C17.C17_run_kinds_repaired
+#print axioms PwVerif.C17.C17_run_kinds_witness
+#print axioms PwVerif.C17.C17_variadic_witness
